@@ -14,7 +14,7 @@ func init() {
 	register(&Prop{
 		ID:       "C20",
 		Category: "model_checking",
-		Rule: "expansion: every accelerated setting x adversarial content kind (uniform random, near-uniform, Fibonacci-skewed, 3-bit, text) x every size of the dense ladder 0..300 and of the windows around each internal threshold (+100000, 200001, 400000 in thorough), one Write + Close, output <= n + n/32 + 256; " +
+		Rule: "expansion: every accelerated setting x adversarial content kind (uniform random, near-uniform, Fibonacci-skewed, 3-bit, text) x every size of the dense ladder 0..300 and of the windows around each internal threshold (+100000, 200001, 400000 in thorough), one Write + Close on a new Writer and (sizes <= 70000) on a Writer reused through Reset after an abandoned first stream of one buffer of incompressible bytes or of text, output <= n + n/32 + 256; " +
 			"effectiveness: every period 1..64 x 3 pattern contents x n in {65536, 65537, 70000, 131072, 200001} x levels {1,2,-1} x both windows, output <= n/32 + 1200; non-trivial = n >= 64",
 		Assumptions: []string{"the bounds are those of the property statement"},
 		Quick:       TierSpec{MaxDev: -1, Shards: 4, ShardDepth: 3, BudgetS: 150},
@@ -94,6 +94,22 @@ func c20Harness(cfg *Cfg) func(x *mc.Exec) {
 		if err != nil {
 			x.Fail("C20 ctor", "%s: %v", k, err)
 			return
+		}
+		// the Writer is new, or reused through Reset after an abandoned first stream whose statistics are unlike the
+		// data's (one full buffer of incompressible bytes, or of text, left pending): the bounds hold for every life
+		if len(data) <= 70000 {
+			if life := x.Choose(3, "life"); life > 0 {
+				first := content([]string{"rand", "text"}[life-1], k.Fill())
+				if _, _, ok := r.do(x, "C20", opWrite, first, fmt.Sprintf("W(first life: %d bytes)", len(first))); !ok {
+					return
+				}
+				sink = &env.Sink{}
+				if pi := r.reset(sink); pi != nil {
+					x.Fail("C20 reset-panic", "%s: %s", k, pi)
+					return
+				}
+				name += fmt.Sprintf(" after an abandoned first stream of %d %s bytes", len(first), []string{"rand", "text"}[life-1])
+			}
 		}
 		if _, _, ok := r.do(x, "C20", opWrite, data, "W("+name+")"); !ok {
 			return
